@@ -275,7 +275,9 @@ macro_rules! arith_int_harness {
 }
 arith_harness!(c01_add_fast, add_fast, Op::Add);
 arith_harness!(c01_sub_fast, sub_fast, Op::Sub);
+// ALSO: C02
 arith_int_harness!(c01_add_fast_int, add_fast, Op::Add);
+// ALSO: C02
 arith_int_harness!(c01_sub_fast_int, sub_fast, Op::Sub);
 
 // `*` and `/` carry no in-place contract: checking `post_arith` both inside the contract wrapper and in
@@ -284,6 +286,7 @@ arith_int_harness!(c01_sub_fast_int, sub_fast, Op::Sub);
 
 /// int32 * int32, all 2^64 pairs: exact int32 product without losing -0, or the IEEE product.
 // FN: JsValue::mul_fast
+// ALSO: C02
 #[kani::proof]
 fn c01_mul_fast_int() {
     let a = any_int();
@@ -299,6 +302,7 @@ fn c01_mul_fast_int() {
 /// int32 / int32, all 2^64 pairs - split in three harnesses (x != 0 && y != 0 | y == 0 | x == 0) so that
 /// the integer divider and the FP divider never meet in one SAT problem.
 // FN: JsValue::div_fast
+// ALSO: C02
 #[kani::proof]
 fn c01x_div_fast_int_nonzero() {
     let a = any_int();
@@ -316,6 +320,7 @@ fn c01x_div_fast_int_nonzero() {
 /// `y * div` overflow check and takes > 400 s): divisor restricted to 8 bits, dividend unrestricted.
 // BOUND: non-zero divisor with |y| <= 127 (8-bit), dividend any non-zero int32
 // FN: JsValue::div_fast
+// ALSO: C02
 #[kani::proof]
 fn c01_div_fast_int_nonzero_small_divisor() {
     let a = any_int();
@@ -329,6 +334,7 @@ fn c01_div_fast_int_nonzero_small_divisor() {
 }
 
 // FN: JsValue::div_fast
+// ALSO: C02
 #[kani::proof]
 fn c01_div_fast_int_by_zero() {
     let a = any_int();
@@ -341,6 +347,7 @@ fn c01_div_fast_int_by_zero() {
 }
 
 // FN: JsValue::div_fast
+// ALSO: C02
 #[kani::proof]
 fn c01_div_fast_int_zero_dividend() {
     let a = ManuallyDrop::new(JsValue::new(0i32));
@@ -461,6 +468,7 @@ macro_rules! bit_harness {
 bit_harness!(c01_bitand_fast, bitand_fast, BitOp::And);
 bit_harness!(c01_bitor_fast, bitor_fast, BitOp::Or);
 bit_harness!(c01_bitxor_fast, bitxor_fast, BitOp::Xor);
+// ALSO: C02
 bit_harness!(c01_shl_fast, shl_fast, BitOp::Shl);
 bit_harness!(c01_shr_fast, shr_fast, BitOp::Shr);
 bit_harness!(c01_ushr_fast, ushr_fast, BitOp::Ushr);
